@@ -32,7 +32,7 @@ ANCHORS = [
     'desper/loop.py::SimpleLoop.switch',
     'desper/loop.py::SimpleLoop.loop',
 ]
-MIN_NONTRIVIAL = {'quick': 1000, 'thorough': 10000}
+MIN_NONTRIVIAL = {'quick': 1000, 'thorough': 50000}
 MIN_STATS = {'switch_requests_checked': 5000}
 EXHAUSTIVE = {
     'quick': 'all scripts of 1 or 2 requests over 2 handles x target x '
@@ -71,7 +71,7 @@ def gen_cases(tier, seed):
     for a in single:
         for b in single:
             yield {'handles': 2, 'script': [a, b]}
-    n = 500 if tier == 'quick' else 16 * 3000
+    n = 500 if tier == 'quick' else 16 * 20000
     for i in range(n):
         rng = random.Random(f'C13/{seed}/{tier}/{i}')
         nh = rng.randint(2, 4)
